@@ -1,13 +1,14 @@
 import Proofs.ExprShowLex
 import Proofs.ExprFitsExact
+import Proofs.ShowFloatLemmas
 /-!
 # The tokens the scanner produces (helper lemmas for `Proofs/C08.lean`)
 
 `lex_scanOK`: every token the scanner returns is well formed (`scanOK`): an identifier / keyword / property token
 carries the text of an identifier, an identifier token is not one of the reserved words, an integer literal is
-within int64, a string literal does not contain its own quote. A float literal token is not constrained here:
-that its value is printable (`ETok.ok`: the exact decimal expansion reads back to the same float) is the separate
-statement `floatOK`.
+within int64, a string literal does not contain its own quote. That the value of a float literal token is printable
+(`ETok.ok`: the exact decimal expansion reads back to the same float) is the separate statement `floatOK`, proved
+for every token of the scanner at the end of this file (`lex_floatOK`, from `Proofs/ShowFloatLemmas.lean`).
 -/
 
 set_option linter.unusedSimpArgs false
@@ -341,3 +342,71 @@ theorem lexAux_scanOK : ∀ (n : Nat) (s : Bytes) (acc : List ETok), acc.all sca
 theorem lex_scanOK (src : Bytes) : (lex src).1.all scanOK = true := by
   unfold lex
   exact lexAux_scanOK _ _ [] rfl
+
+/-! ## float literal tokens
+
+The value of a float literal token is `±r` for a value `r` of `roundF64`'s image (`floatLitValue_image`,
+`Proofs/ShowFloatLemmas.lean`): a dyadic rational that rounds to itself, whose exact decimal expansion
+(`showFloat`) the scanner reads back to the same value. So `floatOK` holds for every token of the scanner. -/
+
+/-- the value of a float literal is printable -/
+theorem floatLit_ok (tok : Bytes) (q : Rat) (h : floatLitValue tok = some (some q)) :
+    (ETok.lit (.flt .f64 q)).ok = true := by
+  simp only [ETok.ok, floatLitValue_showFloat_of_lit tok q h, beq_self_eq_true]
+
+theorem mkTok_floatOK (r : Rule) (tok : Bytes) (t : ETok) (hm : mkTok r tok = .ok (some t)) : floatOK t = true := by
+  cases r with
+  | rInt =>
+    simp only [mkTok] at hm
+    split at hm
+    · cases hm; rfl
+    · cases hm
+  | rFloat =>
+    simp only [mkTok] at hm
+    split at hm
+    · rename_i q hq
+      cases hm
+      exact floatLit_ok tok q hq
+    · cases hm
+    · cases hm
+  | rAny =>
+    simp only [mkTok] at hm
+    split at hm
+    · cases hm; rfl
+    · cases hm
+  | rSpace => cases hm
+  | _ => cases hm; rfl
+
+theorem lexAux_floatOK : ∀ (n : Nat) (s : Bytes) (acc : List ETok), acc.all floatOK = true →
+    (lexAux n s acc).1.all floatOK = true := by
+  intro n
+  induction n with
+  | zero => intro s acc h; simpa [lexAux] using h
+  | succ n ih =>
+    intro s acc hacc
+    cases s with
+    | nil => simpa [lexAux] using hacc
+    | cons c t =>
+      simp only [lexAux]
+      cases hb : bestRule (ruleMatches (c :: t)) with
+      | none => simpa using hacc
+      | some p =>
+        obtain ⟨r, len⟩ := p
+        simp only
+        cases hm : mkTok r (List.take (max len 1) (c :: t)) with
+        | ok o =>
+          cases o with
+          | none => exact ih _ _ hacc
+          | some tk =>
+            simp only
+            apply ih
+            have := mkTok_floatOK r _ tk hm
+            simp [List.all_cons, this, hacc]
+        | err e => simpa using hacc
+        | panic w => simpa using hacc
+        | unmodelled w => simpa using hacc
+
+/-- **every float literal token the scanner returns has a printable value** -/
+theorem lex_floatOK (src : Bytes) : (lex src).1.all floatOK = true := by
+  unfold lex
+  exact lexAux_floatOK _ _ [] rfl
